@@ -439,6 +439,77 @@ func runSecondProver(b *harness.B) {
 	}
 }
 
+// rhp2 as the prover for files of several sectors (the host's real flow: SectorRoot per sector, MetaRoot as
+// the contract root, BuildProof inside the challenged sector, BuildSectorRangeProof across sectors, then
+// ConvertProofOrdering), for sector counts that are not powers of two. The naive audit path is the oracle.
+func runSecondProverMulti(b *harness.B) {
+	rng := b.SubRng("rhp2-multi")
+	counts := []int{1, 2, 3, 5, 6, 7, 8, 9, 11, 12, 13, 14, 15, 16, 17, 23}
+	if b.Tier == "quick" {
+		counts = []int{1, 3, 6, 7, 11, 13, 14, 15}
+	}
+	seedOf := rng.Uint64()
+	fill := func(sec *[rhp2.SectorSize]byte, k int) {
+		x := seedOf ^ (uint64(k)+1)*0x9E3779B97F4A7C15
+		for i := 0; i < len(sec); i += 8 {
+			x ^= x << 13
+			x ^= x >> 7
+			x ^= x << 17
+			for j := 0; j < 8; j++ {
+				sec[i+j] = byte(x >> (8 * j))
+			}
+		}
+	}
+	var sector [rhp2.SectorSize]byte
+	maxN := counts[len(counts)-1]
+	roots := make([]types.Hash256, maxN)
+	for k := 0; k < maxN; k++ {
+		fill(&sector, k)
+		roots[k] = rhp2.SectorRoot(&sector)
+	}
+	for _, n := range counts {
+		rs := roots[:n]
+		naive := make([]refmodel.Hash, n)
+		for k := range rs {
+			naive[k] = refmodel.Hash(rs[k])
+		}
+		metaWant := types.Hash256(refmodel.Root(naive))
+		if got := rhp2.MetaRoot(rs); got != metaWant {
+			b.Violate("C07/second-prover/meta-root", fmt.Sprintf("rhp2.MetaRoot of %d sector roots differs from the naive root", n), map[string]any{"sectors": n})
+			continue
+		}
+		secs := map[int]bool{0: true, n - 1: true, n / 2: true, rng.IntN(n): true}
+		for sIdx := range secs {
+			fill(&sector, sIdx)
+			leaves := refmodel.FileLeaves(sector[:])
+			for _, i := range []uint64{0, rhp2.LeavesPerSector - 1, rng.Uint64N(rhp2.LeavesPerSector)} {
+				idx := uint64(sIdx)*rhp2.LeavesPerSector + i
+				// each left-to-right proof is converted on its own level (segment within sector, sector within file)
+				got := rhp2.ConvertProofOrdering(rhp2.BuildProof(&sector, i, i+1, nil), i)
+				got = append(got, rhp2.ConvertProofOrdering(rhp2.BuildSectorRangeProof(rs, uint64(sIdx), uint64(sIdx)+1), uint64(sIdx))...)
+				want := append(toH(refmodel.Proof(leaves, int(i))), toH(refmodel.Proof(naive, sIdx))...)
+				b.Eval(1)
+				b.Count("second_prover_multi_sector_proofs_compared", 1)
+				b.Distinct("rhp2-multi", n, sIdx == 0, sIdx == n-1, i == 0)
+				if fmt.Sprint(got) != fmt.Sprint(want) {
+					b.Violate("C07/second-prover/multi-sector-proof-differs", fmt.Sprintf("honest rhp2 proof (BuildProof and BuildSectorRangeProof, each through ConvertProofOrdering) for segment %d of a %d-sector file differs from the naive audit path", idx, n), map[string]any{"sectors": n, "sector": sIdx, "leaf": i})
+					continue
+				}
+				// and the naive verifier accepts it under the contract root
+				var seg [64]byte
+				copy(seg[:], sector[i*64:])
+				gotP := make([]refmodel.Hash, len(got))
+				for k := range got {
+					gotP[k] = refmodel.Hash(got[k])
+				}
+				if r, ok := refmodel.VerifyProof(refmodel.LeafHash(seg[:]), int(idx), n*rhp2.LeavesPerSector, gotP); !ok || types.Hash256(r) != metaWant {
+					b.Violate("C07/second-prover/multi-sector-proof-does-not-verify", fmt.Sprintf("honest rhp2 proof for segment %d of a %d-sector file does not lead to the contract root", idx, n), map[string]any{"sectors": n, "sector": sIdx, "leaf": i})
+				}
+			}
+		}
+	}
+}
+
 func runHistories(b *harness.B) {
 	nNets := b.Pick(3, 10)
 	blocks := b.Pick(150, 600)
@@ -642,6 +713,7 @@ func main() {
 				runProofs(b, "v2", 0)
 			case 4:
 				runSecondProver(b)
+				runSecondProverMulti(b)
 			case 5:
 				runProofs(b, "boundary", 0)
 			case 6:
